@@ -131,7 +131,7 @@ func FuzzNode(seed int64, steps int, idMul uint64) *Cluster {
 	// One run in three starts with an election that the node wins (the peers answer its requests with grants), so
 	// that the leader-side paths (flow control, commit, reads, transfers, configuration changes) are fuzzed from
 	// the start instead of only when random messages happen to elect it.
-	if rng.Intn(3) == 0 {
+	if rng.Intn(3) == 0 || soleIncoming {
 		drain := func() {
 			for k := 0; k < 4 && n.Alive && n.RN != nil && n.HasReady(); k++ {
 				c.processReady(n, 0)
@@ -245,6 +245,10 @@ func FuzzNode(seed int64, steps int, idMul uint64) *Cluster {
 				return t + 2
 			}
 			return t
+		}
+		if soleIncoming && rng.Intn(12) == 0 { // reads at a node that is the only incoming voter
+			n.ReadIndex([]byte(fmt.Sprintf("r%d", rng.Intn(5))))
+			continue
 		}
 		switch r := rng.Intn(100); {
 		case r < 45: // a message
@@ -391,7 +395,7 @@ func FuzzNode(seed int64, steps int, idMul uint64) *Cluster {
 			}
 			c.processReady(n, 0)
 			if o.Async {
-				for len(n.AppendQ) > 0 && n.Alive && rng.Intn(4) != 0 {
+				for len(n.AppendQ) > 0 && n.Alive && rng.Intn(3) != 0 {
 					c.appendThread(n)
 				}
 				for len(n.ApplyQ) > 0 && n.Alive && rng.Intn(2) != 0 { // the apply thread lags more often than the append thread
